@@ -258,7 +258,10 @@ theorem stepE (σ : Env) (μ : Heap) (C : Ctx) (e : Expr) (v : Val) (μ' : Heap)
     bnd h with vs μ1 h1
     obtain ⟨e1, hvs⟩ := ih.Es _ _ _ _ _ _ hσ hμ h1
     split at h
-    · cases h
+    · -- no such FPy function: a rounding-context constructor (`ctxCtor`: no heap access, a `.ctx` value)
+      obtain ⟨c, _, hc⟩ := map_ok h
+      cases hc
+      exact ⟨e1, trivial⟩
     · rename_i fd hfd
       split at h
       · cases h
